@@ -190,6 +190,9 @@ def make_graph(rng, world=None, nv=None, ne=None, fix="first", custom=True, well
             for _ in range(rng.randrange(1, 3)):
                 a = rng.choice(pose_idx)
                 off_vals = rand_pose_vals(rng, pose_t, spread=1.0) if rng.random() < 0.7 else np.asarray(CLS[pose_t].identity()).tolist()
+                if rng.random() < 0.2:  # rotation-only offset (zero lever arm, e.g. a camera optical frame)
+                    npos = 2 if pose_t == "PoseSE2" else 3
+                    off_vals = [0.0] * npos + list(rand_pose_vals(rng, pose_t)[npos:])
                 pa, off, l = mk_pose(pose_t, truth[a][1]), mk_pose(pose_t, off_vals), mk_pose(point_t, truth[k][1])
                 z = (pa + off).inverse + l
                 c = z.COMPACT_DIMENSIONALITY
